@@ -218,9 +218,9 @@ Proof.
 Qed.
 
 (* the rule names are pairwise distinct, whatever the schema and document *)
-Lemma all_rules_names_nodup : forall s doc, NoDup (map rinst_name (all_rules s doc)).
+Lemma all_rules_names_nodup : forall pre s doc, NoDup (map rinst_name (all_rules pre s doc)).
 Proof.
-  intros s doc.
+  intros pre s doc.
   assert (H : forall l : list str, forallb (fun p => negb (str_eqb (fst p) (snd p)))
             ((fix pairs (l : list str) := match l with [] => [] | x :: tl => map (pair x) tl ++ pairs tl end) l) = true ->
           NoDup l).
@@ -232,10 +232,10 @@ Proof.
   apply H. lazy. reflexivity.
 Qed.
 
-Lemma default_rules_names_nodup : forall s doc, NoDup (map rinst_name (default_rules s doc)).
+Lemma default_rules_names_nodup : forall pre s doc, NoDup (map rinst_name (default_rules pre s doc)).
 Proof.
-  intros s doc. pose proof (all_rules_names_nodup s doc) as H. unfold all_rules in H.
-  rewrite map_app in H. revert H. generalize (map rinst_name (default_rules s doc)) as l1.
+  intros pre s doc. pose proof (all_rules_names_nodup pre s doc) as H. unfold all_rules in H.
+  rewrite map_app in H. revert H. generalize (map rinst_name (default_rules pre s doc)) as l1.
   induction l1 as [|x l1 IH]; intro H; [constructor|].
   cbn [app] in H. inversion H as [|? ? Hn Hd]; subst. constructor.
   - intro Hin. apply Hn. apply in_or_app. left. exact Hin.
